@@ -191,7 +191,7 @@ func genCase(rng *prng.R, idx int, reps int, lean bool) caseSpec {
 			// documented domain of the lossless converter: plain or gzip'ed tar without a TOC entry
 			l.Src = rng.PickS("tar", "gzip", "gzip")
 		case c.Docker:
-			l.Src = rng.PickS("tar", "gzip", "gzip", "esgz")
+			l.Src = rng.PickS("tar", "gzip", "zstd", "gzip", "esgz", "zstd") // Docker has a zstd layer type too (images.MediaTypeDockerSchema2LayerZstd)
 		default:
 			l.Src = rng.PickS("tar", "gzip", "gzip", "zstd", "esgz", "zstdchunked")
 		}
